@@ -13,7 +13,7 @@ R(i, j, x, y, s, u, d, f, b, c, o) ==
     [i |-> i, j |-> j, x |-> x, y |-> y, s |-> s, u |-> u, d |-> d, f |-> f, b |-> b, c |-> c, o |-> o]
 BaseRows == <<
   R(IntV(0),  IntV(3),  N,          N,         StrV("a"),   StrV("ab"),  DateV(737484), DateV(737425), T, N, N),
-  R(IntV(1),  IntV(0),  Rat(1, 2),  N,         StrV(""),    N,          N,            N,            F, T, IntV(5)),
+  R(IntV(1),  IntV(0),  Rat(1, 2),  N,         StrV(""),    N,          N,            N,            F, T, IntV(1)),
   R(IntV(-3), IntV(-2), N,          Rat(3, 2), N,          StrV("A"),   N,            DateV(737484), T, N, Rat(1, 2)),
   R(IntV(7),  IntV(1),  Rat(-3, 2), Rat(1, 4), N,          N,          DateV(737424), N,            N, F, N),
   R(N,       IntV(5),  N,          N,         N,          N,          DateV(737425), DateV(737424), F, T, StrV("3")),
